@@ -21,7 +21,9 @@
          F8  a nested container without a leaf child is unknown to the builder: no nested clause
              on it, so "the same object" is lost;                         C05_refuted_F8
          F17 a term on the default field gets no nested clause when the default field lies under
-             a nested path.                                               C05_refuted_F17
+             a nested path;                                               C05_refuted_F17
+         F18 with no nested field declared, a field named ".x" gets a nested clause on the empty
+             path (an empty nested_fields specification flattens to [""]).  C05_refuted_F18
        PROVED for configurations without nested fields and trees without the F6 shape:
                                                                 -> C05_boolean_partial
    The nested clause of (b) beyond that (C05_nested_partial) is not proved here; it is exercised on
@@ -47,8 +49,8 @@ Definition C05_reject_statement : Prop :=
    plain_tree cfg t         : every operand of a BoolOperation is +x / -x / NOT x, or is translated
                               into something that is neither an EMust nor an EMustNot item and is
                               not a BoolOperation (not F6); and no field is named "" or ".x"
-                              (the code takes those for fields under the nested path "" that an
-                              empty nested_fields specification flattens to) *)
+                              (not F18: the code takes those for fields under the nested path ""
+                              that an empty nested_fields specification flattens to) *)
 Definition C05_boolean_partial_statement : Prop :=
   forall cfg t, supported t = true -> wf_config cfg = true -> sem_config cfg = true ->
     no_nested cfg = true -> plain_tree cfg t = true ->
@@ -114,6 +116,16 @@ Definition d_F17 : doc := doc_of (FDoc [] [([97]%N, [FDoc [clause_match [97;46;9
 
 Theorem C05_refuted_F17 : ~ C05_statement.
 Proof. refute cfg_F17 (w [120]%N) d_F17. Qed.
+
+(* F18: no nested field declared, query  .a:foo  -> {nested: {path: "", query: {match: {".a": foo}}}} *)
+Definition t_F18 : item := fld [46;97]%N (w [102;111;111]%N).
+Definition d_F18 : doc := doc_of (FDoc [clause_match [46;97]%N [102;111;111]%N] []).
+
+Theorem C05_refuted_F18 : ~ C05_statement.
+Proof. refute default_config t_F18 d_F18. Qed.
+
+Example F18_shape : plain_tree default_config t_F18 = false /\ no_nested default_config = true.
+Proof. vm_compute. split; reflexivity. Qed.
 
 (* the three witnesses are independent: each one has only its own shape *)
 Example witnesses_independent :
@@ -199,3 +211,4 @@ Print Assumptions C05_boolean_partial.
 Print Assumptions C05_refuted.
 Print Assumptions C05_refuted_F8.
 Print Assumptions C05_refuted_F17.
+Print Assumptions C05_refuted_F18.
